@@ -204,7 +204,7 @@ def gen_jobs(ctx):
             add('step', init, evs, 'sampled-3-4')
             n_s -= 1
     # 3. random histories up to length 8 over 2-4 files, one at a time
-    n_r = 8 if quick else 200
+    n_r = 8 if quick else 160
     tries = 0
     while n_r > 0 and tries < 10000:
         tries += 1
@@ -217,7 +217,7 @@ def gen_jobs(ctx):
     # 4. bursts (real interleavings of handler, file worker, dispatcher + rate limiter, workspace worker).
     #    Parse failures are left to step mode: there the final state depends on the job-atomic schedule, so
     #    a burst could not be compared with a single prediction.
-    n_b = 10 if quick else 200
+    n_b = 10 if quick else 160
     tries = 0
     while n_b > 0 and tries < 10000:
         tries += 1
